@@ -467,5 +467,5 @@ func checkCase(c Case) error {
 func TestFaults(t *testing.T) { vt.Run(t, prop, "TestFaults", genCase, checkCase) }
 
 func TestReplay(t *testing.T) {
-	vt.Replay(t, map[string]func(json.RawMessage) error{"TestFaults": vt.Decode(checkCase)})
+	vt.Replay(t, map[string]func(json.RawMessage) error{"TestFaults": vt.Decode(checkCase), "TestRealTransport": vt.Decode(checkReal)})
 }
